@@ -309,6 +309,7 @@ def run_shard(shard) -> Result:
         run_program(corpus.matrix_protos(), "matrix", res, {"item": {"kind": "matrix"}})
     elif k == "features":
         run_program(corpus.feature_protos(), "features", res, {"item": {"kind": "features"}})
+        run_program(corpus.feature_protos(apart=True), "features:apart", res, {"item": {"kind": "features", "apart": True}})
     elif k == "extra":
         it = {"kind": "extra", "name": shard["name"]}
         if shard.get("cmdline"):
